@@ -114,6 +114,8 @@ Vals ==
     \* two values of one attribute with the same text and different kinds
     sametext |-> <<[t |-> "int", v |-> "1"], [t |-> "str", v |-> "n1"]>>,
     \* one text under two language tags
+    \* a language tag that is not in the conventional spelling (kept verbatim)
+    langcase |-> <<[t |-> "lang", v |-> "s1", lang |-> "EN-gb"]>>,
     twolang |-> <<[t |-> "lang", v |-> "s1", lang |-> "en"], [t |-> "lang", v |-> "s1", lang |-> "fr"]>>,
     none |-> <<>> ]
 ValueClasses == DOMAIN Vals
@@ -302,6 +304,8 @@ SecondActs ==
 (* Mode "ns": namespace declarations and records whose names exercise them *)
 NsActs ==
   { [op |-> "AddNs", h |-> h, p |-> p, u |-> u] : h \in {"d1", "b1"}, p \in {"ex", "dn", "default"}, u \in {AB, C} }
+  \* a pre-loaded prefix requested for another namespace (the XML Schema URI without '#')
+  \cup { [op |-> "AddNs", h |-> "d1", p |-> "xsd", u |-> <<"xsd">>] }
   \cup { [op |-> "SetDefault", h |-> h, u |-> u]
            : h \in {x \in {"d1", "b1"} : TRUE}, u \in {A, C} }
 NsRecActs ==
@@ -311,6 +315,7 @@ NsRecActs ==
         i \in { NamePL("ex", X), NameBare(X), NameQN("", AB, X), NameQN("ex", C, X),
                 NameUri(AB \o X), NameQN("dn", A, X), NameQN("default", C, X) },
         e \in { <<>>, << <<NameQN("", C, <<"attr">>), Ref(NameQN("ex", AB, Y))>> >>,
+                << <<NamePL("ex", <<"attr">>), [t |-> "int", v |-> "7"]>> >>,
                 << <<NamePL("ex", <<"attr">>), [t |-> "lit", v |-> "s1", dt |-> QN("q", C, <<"dtype">>)]>> >> } }
   \cup { [op |-> "NewRec", h |-> h, k |-> "generation", via |-> "new_record", id |-> <<>>,
            formals |-> << <<"entity", Ref(e)>>, <<"activity", Ref(NameQN("", C, Y))>> >>, extras |-> <<>>]
